@@ -688,6 +688,7 @@ impl World {
             "deliver" => self.op_deliver(r, op["from"].as_u64().unwrap() as usize % self.reps.len(), op["pick"].as_u64().unwrap() as usize),
             "timetravel" => self.op_timetravel(r, op["pick"].as_u64().unwrap() as usize),
             "delete_object" => self.op_delete_object(r, op["pick"].as_u64().unwrap() as usize),
+            "objapi" => self.op_objapi(r, op),
             "failcommit" => self.op_failcommit(r, op),
             "faults" => self.op_faults(r, op["seed"].as_u64().unwrap()),
             "sync" => self.op_sync(),
@@ -1372,6 +1373,42 @@ impl World {
         }
     }
 
+    /// direct use of the object-level API on objects outside the document
+    fn op_objapi(&mut self, r: usize, op: &Value) {
+        let call = op["call"].as_str().unwrap().to_string();
+        let uuid = op["uuid"].as_str().unwrap().to_string();
+        let obj = op.get("obj").and_then(|o| o.as_object().cloned()).unwrap_or_default();
+        let m = self.reps[r].m.as_ref().unwrap();
+        let res = catch_unwind(AssertUnwindSafe(|| match call.as_str() {
+            "create" => m.create_object(&uuid, obj.clone()),
+            "update" => m.update_object(&uuid, obj.clone()),
+            _ => m.remove_object(&uuid),
+        }));
+        let (cls, ret) = match &res {
+            Ok(Ok(x)) => ("ok", json!(x)),
+            Ok(Err(_)) => ("err", Value::Null),
+            Err(_) => ("panic", Value::Null),
+        };
+        if cls == "panic" {
+            self.fail("C08", format!("{}_object aborted on a well-formed object", call));
+            return;
+        }
+        // the value recorded for the object is what was passed in
+        let m = self.reps[r].m.as_ref().unwrap();
+        if cls == "ok" && call != "remove" {
+            if let Some(rv) = ret.as_str() {
+                match m.get_value(&uuid, Some(rv)) {
+                    Ok(v) if v == obj || (obj.is_empty() && v.is_empty()) => {}
+                    other => {
+                        let w = format!("{}_object(\"{}\") returned revision {} whose value is {:?}, not the object passed in", call, uuid, rv, other.map(Value::from).map(|v| js(&v)));
+                        self.fail("C19", w);
+                    }
+                }
+            }
+        }
+        self.emit("objapi", r, cls, json!({"call": call, "uuid": uuid, "obj": obj, "ret": ret}));
+    }
+
     fn op_failcommit(&mut self, r: usize, op: &Value) {
         let store = match &self.reps[r].be {
             Backend::Sim(s) => s.clone(),
@@ -2041,7 +2078,22 @@ pub fn gen_op(w: &World, g: &mut Rng, sim_faults: bool) -> Value {
         78..=80 => json!({"op": "snapshot", "r": r}),
         81..=89 => json!({"op": "deliver", "r": r, "from": other, "pick": g.below(16)}),
         90..=92 => json!({"op": "timetravel", "r": r, "pick": g.below(16)}),
-        93 => json!({"op": "delete_object", "r": r, "pick": g.below(8)}),
+        93 => {
+            if g.chance(1, 2) {
+                json!({"op": "delete_object", "r": r, "pick": g.below(8)})
+            } else {
+                // objects outside the document, identical bodies on different replicas on purpose
+                let uuid = *g.pick(&["k0", "k1", "k2"]);
+                let call = *g.pick(&["create", "update", "update", "remove"]);
+                let obj = match g.below(4) {
+                    0 => json!({}),
+                    1 => json!({"n": g.below(3)}),
+                    2 => json!({"s": *g.pick(&special_strings())}),
+                    _ => json!({"n": 1, "nested": {"a": [1, 2]}}),
+                };
+                json!({"op": "objapi", "r": r, "call": call, "uuid": uuid, "obj": obj})
+            }
+        }
         94..=96 => {
             let _ = sim_faults;
             if staged {
